@@ -147,8 +147,11 @@ def check_property(prop, tier, seed, timeout_s):
             if o.props is None or prop in o.props:
                 all_obls.append(o)
     vcgen_s = time.time() - t0
+    _tm = lambda what: os.environ.get('VERIF_TIMING') and print(f'  [timing] {what}: {time.time() - t0:.1f}s', flush=True)   # noqa: E731
+    _tm('vcgen')
     discharge.discharge(all_obls, timeout_ms=timeout_s * 1000, second_solver=(tier == "thorough"))
     # frame / effect obligations (modular effect analysis over the same ASTs, DESIGN.md 1.6)
+    _tm('discharge')
     if spec.get("effects"):
         from . import effects
         an = effects.Analysis()
@@ -173,6 +176,7 @@ def check_property(prop, tier, seed, timeout_s):
     canaries = [(n, h) for e in engines.values() for (n, h) in e.canary_points]
     can = discharge.check_sat([h for _, h in canaries], 2000 if tier == "quick" else 10000)
     vacuous = [n for (n, _), r in zip(canaries, can) if r == "unsat"]
+    _tm('canaries')
     discharge.close()
 
     violations, undecided, known_seen, lines = [], [], [], []
@@ -238,6 +242,7 @@ def check_property(prop, tier, seed, timeout_s):
             violations.append(("bounded:" + b["oracle"].partition("::")[2], path, True))
         elif status != "none":
             undecided.append(("bounded:" + b["oracle"].partition("::")[2], f"stand-in did not run: {status} {text[-300:]}"))
+    _tm('hunt+standins')
     for n in vacuous:
         undecided.append((n, "vacuous: hypotheses at this reachability point are contradictory"))
     if not all_obls and not fn_errors:
